@@ -1,12 +1,18 @@
 // ===== prelude/built_noasync.rs — the built-graph invariant in a build WITHOUT the `async` feature: FnGraph has no edge_counts field =====
-/// the built-graph invariant: what `FnGraphBuilder::build` establishes and every run-time unit relies on
-pub open spec fn built<F: DataAccessDyn>(fg: &FnGraph<F>) -> bool {
+/// the part of the built-graph invariant that does not speak about data access (no bound on `F`)
+pub open spec fn built_shape<F>(fg: &FnGraph<F>) -> bool {
     let n = fg.graph.n();
     &&& fg.graph.wf() && fg.graph_structure.wf() && fg.graph_structure_rev.wf()
     &&& fg.graph_structure.n() == n && fg.graph_structure_rev.n() == n
     &&& fg.graph_structure.edges() == fg.graph.edges()
     &&& reversed_edges(fg.graph.edges(), fg.graph_structure_rev.edges())
     &&& fg.ranks@.len() == n
+}
+
+/// the built-graph invariant: what `FnGraphBuilder::build` establishes and every run-time unit relies on
+pub open spec fn built<F: DataAccessDyn>(fg: &FnGraph<F>) -> bool {
+    let n = fg.graph.n();
+    &&& built_shape(fg)
     &&& forall|a: int, b: int| 0 <= a < n && 0 <= b < n && a != b && #[trigger] conflict(&fg.graph.weights()[a], &fg.graph.weights()[b])
             ==> reach(fg.graph.edges(), a, b) || reach(fg.graph.edges(), b, a)
 }
